@@ -20,7 +20,8 @@ MODULES = ["NaunetProps.C19"]
 THEOREMS = ["Naunet.C19.solve_success_exact", "Naunet.C19.levels_success", "Naunet.C19.substeps_inv",
             "Naunet.C19.fail_logs_initial_state", "Naunet.C19.unrecoverable_fails", "Naunet.C19.reinit_failure_fails",
             "Naunet.C19.five_levels_then_fail", "Naunet.C19.odeint_budget", "Naunet.C19.levels_unrecoverable",
-            "Naunet.C19.substeps_failed_flag", "Naunet.C19.body_unrecoverable"]
+            "Naunet.C19.substeps_failed_flag", "Naunet.C19.body_unrecoverable", "Naunet.C19.pywrap_returned_exact",
+            "Naunet.C19.pywrap_raises_iff_fail", "Naunet.C19.odeint_pywrap_budget"]
 RULE = ("fault scripts for the mock integrator: per CVode call an outcome (ok | flag in {-1..-4,-6 recoverable; -5,-7,-22,-99 "
         "unrecoverable} with partial progress fraction), per CVodeReInit ok/fail; random scripts plus (thorough) exhaustive "
         "flag sequences over the first calls of the first levels; dt over 1e-3..1e13; odeint: step counts around mxsteps. "
@@ -105,18 +106,25 @@ def run(argv):
     for b in ["dense", "sparse", "rosenbrock4"]:
         render(net, b, chk.scratch / b)   # (not in threads: stdout redirection is process-global)
 
-    def build(b):
+    def build(job):
+        b, py = job
         path = chk.scratch / b
-        exe = path / "c19"
-        defs = ["C19_ODEINT"] if b == "rosenbrock4" else []
+        exe = path / ("c19py" if py else "c19")
+        defs = (["C19_ODEINT"] if b == "rosenbrock4" else []) + (["PYMODULE", "C19_PYWRAP", "PYMODNAME=c19mod"] if py else [])
         ok, err = cbuild.build(path, ROOT / "shim" / "c19_driver.cpp", exe, b, defines=defs)
-        return b, ok, err, exe
+        return b, py, ok, err, exe
 
-    with ThreadPoolExecutor(3) as ex:
-        for b, ok, err, exe in ex.map(build, ["dense", "sparse", "rosenbrock4"]):
+    # every back-end twice: the C++ entry point, and the sources compiled as the Python module (-DPYMODULE, pybind11 stand-in) with
+    # the call going through Naunet::PyWrapSolve - what `Naunet.Solve` is for a Python caller
+    pybuilds = {}
+    with ThreadPoolExecutor(6) as ex:
+        for b, py, ok, err, exe in ex.map(build, [(b, py) for b in ["dense", "sparse", "rosenbrock4"] for py in (False, True)]):
             if not ok:
-                chk.violation({"kind": "does-not-compile", "backend": b}, f"rendered {b} sources do not compile against the shim",
+                chk.violation({"kind": "does-not-compile", "backend": b, "python_module": py},
+                              f"rendered {b} sources do not compile against the shim" + (" as the Python module" if py else ""),
                               error=err[-1500:])
+            elif py:
+                pybuilds[b] = exe
             else:
                 builds[b] = exe
     scripts = gen_scripts(chk.rng, tier)
@@ -138,7 +146,27 @@ def run(argv):
         if r.returncode != 0 or len(lines) != len(scripts):
             chk.violation({"kind": "driver-crash", "backend": b}, f"compiled Solve crashed (rc={r.returncode})", stderr=r.stderr[-800:])
             continue
+        pylines = None
+        if b in pybuilds:
+            rp = subprocess.run([str(pybuilds[b])], input=inp, capture_output=True, text=True, cwd=pybuilds[b].parent, timeout=600)
+            pylines = rp.stdout.strip().split("\n")
+            if rp.returncode != 0 or len(pylines) != len(scripts):
+                chk.violation({"kind": "driver-crash", "backend": b, "python_module": True},
+                              f"compiled PyWrapSolve crashed (rc={rp.returncode})", stderr=rp.stderr[-800:])
+                pylines = None
         for i, (s, line) in enumerate(zip(scripts, lines)):
+            if pylines is not None:
+                # the Python caller gets an exception exactly when Solve fails, and otherwise the abundances Solve produced
+                pf, py_ = int(pylines[i].split()[0]), float(pylines[i].split()[1])
+                cf, cy_ = int(line.split()[0]), float(line.split()[1])
+                chk.hist[f"pywrap:{'raised' if pf else 'returned'}"] += 1
+                if (pf != 0) != (cf != 0) or (cf == 0 and abs(py_ - cy_) > 1e-9 * max(abs(cy_), 1e-300)):
+                    chk.violation({"kind": "python-wrapper-differs", "backend": b},
+                                  f"Naunet::Solve returned flag {cf} (y[0] = {cy_!r}) but the Python-facing PyWrapSolve "
+                                  f"{'raised' if pf else 'returned normally'} (y[0] = {py_!r}): a Python caller "
+                                  f"{'sees a failure that did not happen' if pf else 'is handed the abundances of a failed integration as a result'}",
+                                  input={"dt": s["dt"], "y0": s["y0"], "cv": s["cv"][:12], "n_cv": len(s["cv"]), "reinit": s["reinit"]})
+                    continue
             flag, y, lo, hi, logged, ncalls = line.split()
             flag = int(flag); y = float(y); lo = float(lo); hi = float(hi); logged = float(logged); ncalls = int(ncalls)
             nfail = sum(1 for f, _ in s["cv"] if f < 0)
@@ -185,6 +213,8 @@ def run(argv):
                 mflag = 0 if a["result"] == "success" else 1
                 if mflag != flag or abs(my - y) > 1e-9 * max(abs(y), abs(s["dt"]), 1e-300):
                     chk.corr_break("solve", short, {"result": a["result"], "y": my}, {"flag": flag, "y": y, "backend": b})
+                elif pylines is not None and (a.get("python") == "raised") != (int(pylines[i].split()[0]) != 0):
+                    chk.corr_break("pywrap", short, {"python": a.get("python")}, {"raised": int(pylines[i].split()[0]), "backend": b})
                 else:
                     chk.traces += 1
     # ------------------------------------------------------------ odeint
@@ -211,8 +241,25 @@ def run(argv):
             chk.violation({"kind": "driver-crash", "backend": "rosenbrock4"}, f"compiled odeint Solve crashed (rc={r.returncode})",
                           stderr=r.stderr[-800:])
         else:
+            pylines = None
+            if "rosenbrock4" in pybuilds:
+                pexe = pybuilds["rosenbrock4"]
+                rp = subprocess.run([str(pexe)], input=inp, capture_output=True, text=True, cwd=pexe.parent, timeout=600)
+                pylines = rp.stdout.strip().split("\n")
+                if rp.returncode != 0 or len(pylines) != len(cases):
+                    chk.violation({"kind": "driver-crash", "backend": "rosenbrock4", "python_module": True},
+                                  f"compiled odeint PyWrapSolve crashed (rc={rp.returncode})", stderr=rp.stderr[-800:])
+                    pylines = None
             for i, ((mx, ns, dt, y0), line) in enumerate(zip(cases, lines)):
                 flag, y = int(line.split()[0]), float(line.split()[1])
+                if pylines is not None:
+                    pf, py_ = int(pylines[i].split()[0]), float(pylines[i].split()[1])
+                    chk.hist[f"pywrap:{'raised' if pf else 'returned'}"] += 1
+                    if (pf != 0) != (flag != 0) or (flag == 0 and abs(py_ - y) > 1e-9 * max(abs(y), 1e-300)):
+                        chk.violation({"kind": "python-wrapper-differs", "backend": "rosenbrock4"},
+                                      f"odeint Solve returned flag {flag} but the Python-facing PyWrapSolve "
+                                      f"{'raised' if pf else 'returned normally'}", input={"mxsteps": mx, "observer_calls": ns + 1, "dt": dt, "y0": y0})
+                        continue
                 chk.count(("odeint", mx, ns), nontrivial=True)
                 chk.hist[f"odeint:{'success' if flag == 0 else 'fail'}"] += 1
                 calls = ns + 1
@@ -228,6 +275,8 @@ def run(argv):
                 if oans is not None:
                     if oans[i].get("success") != (flag == 0):
                         chk.corr_break("odeint", case, oans[i], line)
+                    elif pylines is not None and oans[i].get("python_returns") != (int(pylines[i].split()[0]) == 0):
+                        chk.corr_break("odeint-pywrap", case, oans[i], pylines[i])
                     else:
                         chk.traces += 1
     return chk.finish()
